@@ -54,6 +54,18 @@ class Flags:
     def __repr__(self):
         return '|'.join(sorted(self.bits)) or 'empty'
 
+    def __or__(self, o):
+        return Flags(self.ty, self.bits | o.bits) if isinstance(o, Flags) else NotImplemented
+
+    def __and__(self, o):
+        return Flags(self.ty, self.bits & o.bits) if isinstance(o, Flags) else NotImplemented
+
+    def __xor__(self, o):
+        return Flags(self.ty, self.bits ^ o.bits) if isinstance(o, Flags) else NotImplemented
+
+    def __sub__(self, o):
+        return Flags(self.ty, self.bits - o.bits) if isinstance(o, Flags) else NotImplemented
+
 
 def tail2(p):
     return '::'.join(p.split('::')[-2:])
